@@ -162,7 +162,10 @@ def check_c20(run):
     run.cov["states"] = len(cases)
     run.cov["transitions"] = len(cases)
     # every fourth layout is submitted with \r\n line ends (same lines, same line numbers)
-    sessions = [dict(c, id=i + 1, crlf=(i % 4 == 3)) for i, c in enumerate(cases)]
+    # the way the text reaches the engine: one compile, or as an incremental / full update (also of a pool) of an earlier
+    # text in which the faulty rule stood alone on line 1: the cited lines are those of the text compiled last
+    routes = ["", "", "incr", "", "poolincr", "", "", "pool", "", "incr", "", "poolupd", ""]
+    sessions = [dict(c, id=i + 1, crlf=(i % 4 == 3), route=routes[i % len(routes)]) for i, c in enumerate(cases)]
     binary = run.go_build("langdrv")
     sp = os.path.join(run.scratch, "sessions-lines.ndjson")
     tp = os.path.join(run.scratch, "traces-lines.ndjson")
@@ -181,8 +184,8 @@ def check_c20(run):
         elif e.get("ev") == "lskip":
             skipped += 1
     run.log("lines: %d layouts run, %d not in the grammar (skipped), %d rejected" % (ran, skipped, len(rejected)))
-    if ran < len(cases) // 2:
-        raise Infra("more than half of the layouts do not compile: generator problem")
+    if skipped * 20 > len(cases):
+        raise Infra("more than 5%% of the layouts do not compile (%d of %d): generator or driver problem" % (skipped, len(cases)))
     for sid, evs, idx in rejected:
         ev = evs[idx] if idx is not None else {}
         if ev.get("ev") == "crash":
